@@ -162,6 +162,7 @@ type Project struct {
 	Cfg         Config            `json:"cfg"`
 	Soil        Soil              `json:"soil"`
 	PlotNr      string            `json:"plot"`
+	NoWarm      bool              `json:"noWarm,omitempty"` // never preceded by another run of the same session (pair runs)
 	PolyID      string            `json:"polyId"`
 	FieldID     string            `json:"field"`
 	GWHigh      int               `json:"gwHigh"`
